@@ -304,64 +304,56 @@ class _Interp:
 
 
 def r5(ctx):
+    """conforms on a node with a logical operator: evaluated (finite interpreter; the recursive calls on the two operands
+    answer with the given truth values) for And / Or on all four truth assignments"""
+    import interp
+    from extra import _expr_dict
     hir = ctx.anchor_hir(sem.CONFORMS)
-    # the `if let Some(logical_op) = expr.logical_op { ... }` block
-    target = None
-    for x in walk_exprs(hir):
-        if x["k"] == "If" and peel(x["c"], methods=False)["k"] == "LetE":
-            le = peel(x["c"], methods=False)
-            if "logical_op" in render(le["init"]):
-                target = x
-                break
-    if target is None:
-        ctx.violation("anchor/conforms-logical", sem.CONFORMS, "logical-operator branch of conforms not found")
+    ps = ctx.prog.fns[sem.CONFORMS]["params"]
+    import norm
+    tys = norm.param_types(ctx.prog.fns[sem.CONFORMS].get("sig"))
+    epar = [p for p, t in zip(ps, tys) if t.endswith("expr::Expr")]
+    if len(epar) != 1:
+        ctx.violation("anchor/conforms-logical", sem.CONFORMS, "the expression parameter of conforms was not found")
         raise Abort()
-    # result variable: the local assigned in the branch and returned by the function
-    tail = peel(hir["expr"], methods=False) if "expr" in hir else None
-    res_name = tail["name"] if tail is not None and tail["k"] == "Path" and tail.get("rk") == "Local" else "result"
     spec = {"And": lambda l, r: l and r, "Or": lambda l, r: l or r}
-    # find the match over the logical operator inside
-    ms = [m for m in find_matches(target["t"]) if
-          {key_name(k).split("::")[-1] for a in match_arms(m) for k in a["keys"]} >= {"And", "Or"}]
-    if len(ms) != 1:
-        ctx.violation("anchor/conforms-logical-match", ctx.where(sem.CONFORMS, target), "match over LogicalOp not found")
-        raise Abort()
-    # statements preceding the match inside the branch (evaluation of the left operand)
-    blk = peel(target["t"], methods=False)
-    pre = []
-    if blk["k"] == "Block":
-        for s in blk["stmts"]:
-            if ms[0] in list(walk(s)):
-                break
-            pre.append(s)
     n = 0
-    for a in match_arms(ms[0]):
-        for key in a["keys"]:
-            op = key_name(key).split("::")[-1]
-            if op not in spec:
+    for op in ("And", "Or"):
+        for L in (False, True):
+            for R in (False, True):
+                asked = []
+
+                def call(node, recv, args, it, env, L=L, R=R, asked=asked):
+                    if node.get("m") == "conforms" or str(node.get("callee", "")).endswith("Searcher::conforms"):
+                        sub = [a for a in args if isinstance(a, dict) and "__side" in a]
+                        if len(sub) == 1:
+                            asked.append(sub[0]["__side"])
+                            return (L if sub[0]["__side"] == "L" else R,)
+                    return None
+                left = _expr_dict(interp, __side="L")
+                right = _expr_dict(interp, __side="R")
+                ex = _expr_dict(interp, logical_op=interp.some(interp.V("LogicalOp::" + op)), left=interp.some(left), right=interp.some(right))
+                env = {p["id"]: interp.Opaque(p.get("name") or "?") for p in ps}
+                env[epar[0]["id"]] = ex
+                try:
+                    got = interp.Interp(call=call, prog=ctx.prog, max_steps=20000).run(hir, env)
+                except interp.Undecided as e:
+                    ctx.obligation(False)
+                    ctx.violation("conforms/%s/uninterpretable" % op, ctx.where(sem.CONFORMS), "cannot interpret conforms on an %s node: %s" % (op, e))
+                    got = None
+                    break
+                n += 1
+                want = spec[op](L, R)
+                ok = got == want and asked[:1] == ["L"]
+                ctx.obligation(ok)
+                if not ok:
+                    ctx.violation("conforms/%s" % op, ctx.where(sem.CONFORMS),
+                                  "conforms on `A %s B` yields %s for A=%s, B=%s (expected %s; operands asked: %s)" %
+                                  (op.lower(), got, L, R, want, asked))
+            else:
                 continue
-            for L in (False, True):
-                for R in (False, True):
-                    it = _Interp({"L": L, "R": R, res_name: False})
-                    try:
-                        for s in pre:
-                            it.stmt(s)
-                        it.ev(a["body"])
-                        got = it.env.get(res_name)
-                    except NotComparison as e:
-                        ctx.violation("conforms/%s/uninterpretable" % op, ctx.where(sem.CONFORMS, a["body"]),
-                                      "cannot interpret the %s arm of conforms: %s" % (op, e))
-                        got = None
-                        break
-                    n += 1
-                    want = spec[op](L, R)
-                    ctx.obligation(got == want)
-                    if got != want:
-                        ctx.violation("conforms/%s" % op, ctx.where(sem.CONFORMS, a["body"]),
-                                      "the %s arm of conforms yields %s for left=%s, right=%s (expected %s)" %
-                                      (op, got, L, R, want))
-    ctx.covered("truth assignments of the And/Or arms of conforms (interpreted statement by statement)", n,
-                distinct_keys=["And", "Or"], exhaustive=True)
+            break
+    ctx.covered("truth assignments of the And/Or nodes of conforms (evaluated)", n, distinct_keys=["And", "Or"], exhaustive=True)
     ctx.floor(n, 8, "truth assignments over the And/Or arms", sem.CONFORMS)
 
 
